@@ -606,6 +606,7 @@ type Contract struct {
 	Lets     []Clause          // let name = expr (evaluated at entry)
 	Extern   bool
 	Decreases *Clause          // termination measure (integer expression over the parameters)
+	DecreasesList []Clause     // lexicographic components
 }
 
 type PureDef struct {
@@ -857,10 +858,17 @@ func ParseSpecText(path string, text string, raw bool) (*SpecFile, error) {
 			if cur == nil {
 				return nil, fmt.Errorf("%s:%d: decreases outside of a contract", path, l.no)
 			}
-			c, err := mkClause(rest, l.no)
-			if err != nil {
-				return nil, err
+			// lexicographic measure: decreases e1, e2, ...
+			cur.DecreasesList = nil
+			for _, part := range splitTop(rest, ',') {
+				c, err := mkClause(part, l.no)
+				if err != nil {
+					return nil, err
+				}
+				cur.DecreasesList = append(cur.DecreasesList, c)
 			}
+			c := cur.DecreasesList[0]
+			c.Text = rest
 			cur.Decreases = &c
 		case "dispatch":
 			// dispatch Iface ConcreteType : calls through Iface are resolved to ConcreteType, with
